@@ -156,3 +156,82 @@ pub fn h_c15_formulas_move_columns() {
     }
     reach("C15.formulas_move_columns");
 }
+
+// ---- C16: cut & paste at the Model level - which formulas outside the cut area are rewritten, and to what
+use crate::expressions::types::Area;
+
+/// Sheet1 holds `=B2+$C$3` at E5 (fixed) and Sheet2 holds `=Sheet1!B2*2`; the cut area (rows 1..=6 x columns 1..=6,
+/// up to 3x3) and the paste target are symbolic.  `get_external_formula_updates_for_cut` must report exactly the
+/// formulas outside the area whose text changes, with references to cut cells pointing at the moved cells.
+pub fn h_c16_model_cut_updates() {
+    let (fr, fc) = (5, 5);
+    let mut model = model_from_workbook(workbook_with_cells(vec![empty_sheet("Sheet1", 1), empty_sheet("Sheet2", 2)]));
+    let entered = model.set_user_input(0, fr, fc, "=B2+$C$3".to_string()).is_ok() && model.set_user_input(1, 3, 2, "=Sheet1!B2*2".to_string()).is_ok();
+    check("C16.model_cut.entered", entered);
+    if !entered { return; }
+    let area = Area { sheet: 0, row: any_i32_in(1, 6), column: any_i32_in(1, 6), width: any_i32_in(1, 3), height: any_i32_in(1, 3) };
+    let (tr, tc) = (any_i32_in(1, 12), any_i32_in(1, 9));
+    let (dr, dc) = (tr - area.row, tc - area.column);
+    let inside = |r: i32, c: i32| (r >= area.row) & (r < area.row + area.height) & (c >= area.column) & (c < area.column + area.width);
+    let res = model.get_external_formula_updates_for_cut(&area, tr, tc);
+    check("C16.model_cut.no_error", res.is_ok());
+    match res {
+        Ok(updates) => {
+            let b2 = if inside(2, 2) { a1(Some(2 + dr), Some(2 + dc), false, false) } else { "B2".to_string() };
+            let c3 = if inside(3, 3) { a1(Some(3 + dr), Some(3 + dc), true, true) } else { "$C$3".to_string() };
+            let w1 = format!("={}+{}", b2, c3);
+            let w2 = format!("=Sheet1!{}*2", b2);
+            let want1 = !inside(fr, fc) && w1 != "=B2+$C$3";
+            let want2 = w2 != "=Sheet1!B2*2";
+            let mut got1: Option<String> = None;
+            let mut got2: Option<String> = None;
+            let mut other = false;
+            for (s, r, c, f) in updates {
+                if s == 0 && r == fr && c == fc && got1.is_none() { got1 = Some(f); }
+                else if s == 1 && r == 3 && c == 2 && got2.is_none() { got2 = Some(f); }
+                else { other = true; }
+            }
+            check("C16.model_cut.no_other_updates", !other);
+            check("C16.model_cut.same_sheet_formula_follows", if want1 { got1 == Some(w1) } else { got1.is_none() });
+            check("C16.model_cut.other_sheet_formula_follows", if want2 { got2 == Some(w2) } else { got2.is_none() });
+        }
+        Err(_) => {}
+    }
+    reach("C16.model_cut");
+}
+
+// ---- C33: conditional-format rule formulas move like cell formulas (displace_cf_ranges -> real parser -> printer)
+use crate::cf_types::{CfRule, ConditionalFormatting, ValueOperator};
+
+/// Sheet1 carries a "between" rule on G20:H22 whose two bounds are `B2` and `$C$3`; a row / column insertion or a
+/// deletion above the rule's range must leave both bounds pointing at the same cells (or #REF! when deleted)
+pub fn h_c33_cf_rule_formulas() {
+    let mut ws = empty_sheet("Sheet1", 1);
+    ws.conditional_formatting.push(ConditionalFormatting {
+        range: "G20:H22".to_string(),
+        cf_rule: CfRule::CellIs { operator: ValueOperator::Between, formula: "B2".to_string(), formula2: Some("$C$3".to_string()), dxf_id: 0, stop_if_true: false },
+        priority: 1,
+    });
+    let mut model = model_from_workbook(workbook_with_cells(vec![ws]));
+    let (rows, edit) = (any_bool(), any_u8());
+    assume(edit < 2);
+    let (p, k) = (any_i32_in(1, 6), any_i32_in(1, 5));
+    let done = if edit == 0 { if rows { model.insert_rows(0, p, k) } else { model.insert_columns(0, p, k) } }
+               else if rows { model.delete_rows(0, p, k) } else { model.delete_columns(0, p, k) };
+    if done.is_ok() {
+        let (b2, c3) = (map_cell(2, 2, rows, edit, p, k), map_cell(3, 3, rows, edit, p, k));
+        let (w1, w2) = (a1(b2.0, b2.1, false, false), a1(c3.0, c3.1, true, true));
+        let cfs = &model.workbook.worksheets[0].conditional_formatting;
+        check("C33.cf_rule.kept", cfs.len() == 1);
+        if cfs.len() == 1 {
+            match &cfs[0].cf_rule {
+                CfRule::CellIs { formula, formula2, .. } => {
+                    check("C33.cf_rule.first_bound_follows", *formula == w1);
+                    check("C33.cf_rule.second_bound_follows", *formula2 == Some(w2));
+                }
+                _ => check("C33.cf_rule.kind_kept", false),
+            }
+        }
+    }
+    reach("C33.cf_rule");
+}
